@@ -58,3 +58,53 @@ def record_def(f):
         c = [d for d, fn in f.fns.items() if fn.get("has_body") and any(f.ty(t).is_adt("dead_letter::DeadLetterReason") for t in fn["inputs"])]
         return c[0] if len(c) == 1 else None
     return _get(f, "record", go)
+
+
+class Names:
+    """Def paths / variant names of private ADTs, found semantically."""
+    mailbox = None      # element type of the mailbox channel (owns an ActorRef)
+    control = None      # element type of the control channel
+    envelope = None     # variant of `mailbox` that carries a boxed payload
+    stop = None         # the other variant of `mailbox` (graceful stop marker)
+    guard = None        # ADT whose Drop impl removes an entry of the wait-for map
+
+
+def names(f):
+    def go():
+        n = Names()
+        # the two `mpsc::Receiver<X>` parameter types of crate functions: X that owns an ActorRef is the mailbox message
+        elems = {}
+        for d, fn in f.fns.items():
+            for t in fn["inputs"]:
+                ty = f.ty(t)
+                if ty.is_adt("tokio::sync::mpsc::Receiver") and ty.args and ty.args[0].k == "adt" and ty.args[0].defn in f.adts:
+                    elems[ty.args[0].defn] = f.adts[ty.args[0].defn]
+        for defn, a in elems.items():
+            owns_ref = any(any(x.is_adt("actor_ref::ActorRef") for x in f.ty(fl["ty"]).walk()) for v in a["variants"] for fl in v["fields"])
+            if owns_ref and n.mailbox is None:
+                n.mailbox = defn
+                for v in a["variants"]:
+                    boxed = any(any(x.k == "dyn" for x in f.ty(fl["ty"]).walk()) and len(v["fields"]) >= 2 for fl in v["fields"])
+                    if boxed and n.envelope is None:
+                        n.envelope = v["name"]
+                    elif not boxed and n.stop is None:
+                        n.stop = v["name"]
+            elif not owns_ref and n.control is None:
+                n.control = defn
+        # wait-for guard: Drop impl whose body removes from the wait-for map
+        for im in f.impls:
+            if im.get("trait") == "std::ops::Drop":
+                for it in im["items"]:
+                    b = f.body(it["def"])
+                    if b is None:
+                        continue
+                    for blk in b.calls():
+                        fn = blk.term.get("fn") or {}
+                        if fn.get("name") == "remove" and (fn.get("def") or "").startswith("std::collections::HashMap"):
+                            ta = [f.ty(t) for t in fn.get("targs", [])]
+                            if len(ta) >= 2 and ta[0].k == "uint" and ta[1].is_adt("Identity"):
+                                st = f.ty(im["self_ty"])
+                                if st.k == "adt":
+                                    n.guard = st.defn
+        return n
+    return _get(f, "names", go)
